@@ -547,6 +547,15 @@ class Randomizer(RandIF):
             saved.append((fm.size, fm.size.is_used_rand))
 
     @staticmethod
+    def _set_used_rand_roots(field_model_l):
+        # The fields passed to the call are random in it whatever 
+        # their declaration, also when one of them is reachable from
+        # another one (or from itself, through a back reference)
+        in_set = set(field_model_l)
+        for f in field_model_l:
+            f.set_used_rand(True, 0, in_set)
+
+    @staticmethod
     def _trim_randsz_lists(fm, in_set):
         if fm in in_set:
             return
@@ -610,8 +619,8 @@ class Randomizer(RandIF):
         
         clear_soft_priority = ClearSoftPriorityVisitor()
         
+        Randomizer._set_used_rand_roots(field_model_l)
         for f in field_model_l:
-            f.set_used_rand(True, 0)
             clear_soft_priority.clear(f)
            
         if debug > 0: 
@@ -622,7 +631,12 @@ class Randomizer(RandIF):
         # First, invoke pre_randomize on all elements
         visited = []
         for fm in field_model_l:
-            fm.pre_randomize(visited)
+            if fm not in visited:
+                fm.pre_randomize(visited)
+            
+        # pre_randomize may have changed what is random in this call 
+        # (rand_mode, objects added to lists): evaluate it again
+        Randomizer._set_used_rand_roots(field_model_l)
             
         if constraint_l is None:
             constraint_l = []
@@ -704,7 +718,8 @@ class Randomizer(RandIF):
 
         visited = [] 
         for fm in field_model_l:
-            fm.post_randomize(visited)
+            if fm not in visited:
+                fm.post_randomize(visited)
         
         
         # Process constraints to identify variable/constraint sets
